@@ -50,6 +50,9 @@ func (cfg *Config) VerifyConfig(schema base.LogSchema) ([]string, error) {
 		if slices.Index(cfg.Keys, key) != i {
 			return nil, fmt.Errorf(".keys[%d]: field '%s' is listed more than once", i, key)
 		}
+		if err := base.CheckMetricKeyName(key); err != nil {
+			return nil, fmt.Errorf(".keys[%d]: %w", i, err)
+		}
 	}
 	if len(cfg.TagTemplate) == 0 {
 		return nil, fmt.Errorf(".tag is unspecified")
